@@ -90,7 +90,7 @@ func (c *RegionCache) VerifSetNeedReload(v RegionVerID) bool {
 
 // VerifGCRound runs one complete round of the background cache GC synchronously.
 func (c *RegionCache) VerifGCRound() {
-	c.gcRoundFunc(1 << 16)(context.Background(), time.Now())
+	c.gcRoundFunc(1<<16)(context.Background(), time.Now())
 }
 
 // VerifEpochNotMatch calls OnRegionEpochNotMatch with the context a request to the region's work store would carry.
@@ -105,6 +105,7 @@ func (c *RegionCache) VerifEpochNotMatch(bo *retry.Backoffer, v RegionVerID, cur
 	return true, retry, err
 }
 
+<<<<<<< HEAD
 // VerifExpire lets the TTL of the cached region run out (without the invalidation marker).
 func (c *RegionCache) VerifExpire(v RegionVerID) bool {
 	r := c.GetCachedRegionWithRLock(v)
@@ -125,4 +126,63 @@ func (c *RegionCache) VerifSendFail(bo *retry.Backoffer, v RegionVerID, schedule
 	ctx := &RPCContext{Region: v, Meta: r.meta, Peer: peer, AccessIdx: aidx, Store: store, AccessMode: tiKVOnly}
 	c.OnSendFail(bo, ctx, scheduleReload, errors.New("verif: send fail"))
 	return true
+=======
+// VerifRepSnap / VerifSelSnap: a read-only picture of the sender's current replica selector (C10 selector tie).
+type VerifRepSnap struct {
+	PeerID, StoreID                                        uint64
+	Attempts                                               int
+	Deadline, DataNotReady, NotLeader, ServerBusy, Suspect bool
+	Live                                                   int
+	Slow, EpochStale, LabelMatch, Learner, Over            bool
+}
+
+type VerifSelSnap struct {
+	Reps                                []VerifRepSnap
+	LeaderIdx                           int
+	ReadType                            int
+	IsStaleRead, IsReadOnly             bool
+	LeaderOnly, PreferLeader, HasLabels bool
+	SelAttempts                         int
+	BusyThreshold                       bool
+	InvalidatedForRetry, RegionValid    bool
+	LeaderBusyCount                     int
+	LeaderBusyPeer                      uint64
+	LeaderBusyProbed                    bool
+	Target, Proxy                       int // replica index, -1 = none
+}
+
+// VerifSelectorSnapshot reports the selector's state; `threshold` is the busy threshold the request started with.
+func (s *RegionRequestSender) VerifSelectorSnapshot(threshold time.Duration) *VerifSelSnap {
+	sel := s.replicaSelector
+	if sel == nil {
+		return nil
+	}
+	out := &VerifSelSnap{
+		LeaderIdx: int(sel.region.getStore().workTiKVIdx), ReadType: int(sel.replicaReadType),
+		IsStaleRead: sel.isStaleRead, IsReadOnly: sel.isReadOnlyReq,
+		LeaderOnly: sel.option.leaderOnly, PreferLeader: sel.option.preferLeader, HasLabels: len(sel.option.labels) > 0,
+		SelAttempts: sel.attempts, BusyThreshold: sel.busyThreshold > 0,
+		InvalidatedForRetry: sel.regionInvalidatedForRetry, RegionValid: sel.region.isValid(),
+		LeaderBusyCount: sel.leaderBusyCount, LeaderBusyPeer: sel.leaderBusyPeerID, LeaderBusyProbed: sel.leaderBusyProbed,
+		Target: -1, Proxy: -1,
+	}
+	for i, r := range sel.replicas {
+		out.Reps = append(out.Reps, VerifRepSnap{
+			PeerID: r.peer.GetId(), StoreID: r.store.storeID, Attempts: r.attempts,
+			Deadline: r.hasFlag(deadlineErrUsingConfTimeoutFlag), DataNotReady: r.hasFlag(dataIsNotReadyFlag),
+			NotLeader: r.hasFlag(notLeaderFlag), ServerBusy: r.hasFlag(serverIsBusyFlag), Suspect: r.hasFlag(suspectNotLeaderFlag),
+			Live: int(r.store.getLivenessState()), Slow: r.store.healthStatus.IsSlow(), EpochStale: r.isEpochStale(),
+			LabelMatch: r.store.IsStoreMatch(sel.option.stores) && r.store.IsLabelsMatch(sel.option.labels),
+			Learner:    r.peer.GetRole() == metapb.PeerRole_Learner,
+			Over:       threshold > 0 && r.store.EstimatedWaitTime() > threshold,
+		})
+		if r == sel.target {
+			out.Target = i
+		}
+		if r == sel.proxy {
+			out.Proxy = i
+		}
+	}
+	return out
+>>>>>>> c10
 }
